@@ -8,5 +8,6 @@ CONSTANTS SR = 2
 INVARIANT ScheduleIndependent
 INVARIANT ShiftScheduleIndependent
 INVARIANT InsideDetector
+INVARIANT ScaleFree
 INVARIANT RollConserves
 PROPERTY TableStable
